@@ -208,8 +208,13 @@ def compare(ctx, rule, label, cname, out, negative, want, path, stats, concrete=
                 except Exception:
                     continue
                 if o2.kind in ('panic', 'budget'):
-                    ctx.finding(rule, label, 'no-return:' + str(o2.value).replace(' ', ''), 'on rounding cell %s the conversion does not return: %s %s at %s, e.g. for input %s'
-                                % (cname, o2.kind, o2.value, o2.where, cdesc), {'function': path})
+                    site = getattr(o2, 'site', None)
+                    msg = 'on rounding cell %s the conversion does not return: %s %s at %s, e.g. for input %s' % (cname, o2.kind, o2.value, o2.where, cdesc)
+                    if o2.kind == 'panic' and site:
+                        from interp import site_key, entry_label
+                        ctx.finding('PANIC', *site_key(site), msg, {'function': path, 'entry': label}, alt=('PANIC@', entry_label(label), site_key(site)[1]))
+                    else:
+                        ctx.finding(rule, label, 'no-return:' + str(o2.value).replace(' ', ''), msg, {'function': path})
                     return 'finding'
         return 'undecided'
     r = result_int(out.value)
@@ -395,21 +400,31 @@ def posit_source_cells(src, full, dst_es, nk, clamp=True):
                 yield ('%s k=%d e=%d %s' % ('-' if negative else '+', k, e, cname), negative, scale, bits, asg, clamp_const(want, nk) if clamp else want)
 
 
-def posit_input(src, bits_msb_first, negative, tykey=None):
-    y = AInt(src.bits, False, None, None, 0, 0, sym=list(reversed(bits_msb_first)))
-    ys = aval.cast_int(y, src.bits, True)
+def posit_input(src, bits_msb_first, negative, tykey=None, pad=0):
+    """pad: zero bits appended below the pattern (generic-width posits are left-aligned in 32 bits)"""
+    w = src.bits + pad
+    y = AInt(w, False, None, None, 0, 0, sym=list(reversed(list(bits_msb_first) + [0] * pad)))
+    ys = aval.cast_int(y, w, True)
     if negative:
         ys, _ = aval.neg(ys)
     return AAgg(tykey or src.tykey, [ys])
 
 
-def check_posit_to_posit(ctx, prog, rule, label, path, src, dst, full, gargs=None, src_tykey=None, seed=1):
+class Fmt:
+    """a posit format by (bits, es) for the generic-width types"""
+    def __init__(self, name, bits, es, tykey=None):
+        self.name, self.bits, self.es, self.tykey = name, bits, es, tykey
+        self.posit = S.Posit(bits, es)
+
+
+def check_posit_to_posit(ctx, prog, rule, label, path, src, dst, full, gargs=None, src_tykey=None, seed=1, src_pad=0, dst_pad=0, cell_label=''):
     import collections
     I = Interp(prog, max_steps=200000)
     stats = collections.Counter()
     rng = random.Random(seed)
     PS, PD = src.posit, dst.posit
     nk = dst.bits - 1
+    sw = src.bits + src_pad
 
     def mkc(bits, negative):
         def concrete(asg):
@@ -419,10 +434,13 @@ def check_posit_to_posit(ctx, prog, rule, label, path, src, dst, full, gargs=Non
             if negative:
                 u = (-u) & mask(src.bits)
             v = PS.decode(u)
-            sv = u - (1 << src.bits) if u >> (src.bits - 1) else u
-            return [AAgg(src_tykey or src.tykey, [AInt.const(src.bits, True, sv)])], '%#x (%s)' % (u, float(v)), PD.encode(v), lambda a: I.run(path, a, gargs or {})
+            ua = u << src_pad
+            sv = ua - (1 << sw) if ua >> (sw - 1) else ua
+            return ([AAgg(src_tykey or src.tykey, [AInt.const(sw, True, sv)])], '%s%#x (%s)' % (cell_label, ua, float(v)), PD.encode(v) << dst_pad,
+                    lambda a: I.run(path, a, gargs or {}))
         return concrete
     for cname, negative, scale, bits, asg, want in posit_source_cells(src, full, dst.es, nk):
+        cname = cell_label + cname
         # oracle self-check on one random completion
         fa = {}
         u = 0
@@ -431,12 +449,14 @@ def check_posit_to_posit(ctx, prog, rule, label, path, src, dst, full, gargs=Non
                 fa[b[2]] = rng.getrandbits(1)
             u = (u << 1) | (fa[b[2]] if is_lit(b) else b)
         assert PD.encode(PS.decode(u)) == instantiate(want, fa), ('oracle mismatch', label, cname)
-        def subs(bits=bits, want=want, negative=negative):
-            for a2, sub in refine_cells(list(reversed(bits)), want):
+        wv = [0] + list(want) + [0] * dst_pad
+
+        def subs(bits=bits, wv=wv, negative=negative):
+            for a2, sub in refine_cells(list(reversed(bits)), wv):
                 b2 = subst(bits, a2)
-                yield sub, (lambda b2=b2: [posit_input(src, b2, negative, src_tykey)]), [0] + subst(want, a2), mkc(b2, negative)
-        decide(ctx, I, rule, label, cname, path, (lambda bits=bits, negative=negative: [posit_input(src, bits, negative, src_tykey)]),
-               gargs or {}, negative, [0] + want, mkc(bits, negative), stats, subs)
+                yield sub, (lambda b2=b2: [posit_input(src, b2, negative, src_tykey, src_pad)]), subst(wv, a2), mkc(b2, negative)
+        decide(ctx, I, rule, label, cname, path, (lambda bits=bits, negative=negative: [posit_input(src, bits, negative, src_tykey, src_pad)]),
+               gargs or {}, negative, wv, mkc(bits, negative), stats, subs)
     for k_, v in stats.items():
         ctx.count('rounding_%s' % k_, v)
     return stats
